@@ -7,7 +7,7 @@ ELEMENTWISE = {   # kind -> (index of the element-list argument in the op, numbe
     'aranges_lookup': (1, 1), 'pub_get': (2, 0), 'cu_containing_seq': (1, 0), 'session': (2, 1),
 }
 
-CORE_KINDS = set('''sec_iter sec_get sec_by_name sec_index has_sec num_sec seg_iter seg_get num_seg
+CORE_KINDS = set('''sec_iter sec_get sec_get_typed sec_by_name sec_index has_sec num_sec seg_iter seg_get num_seg
 sym_num sym_get sym_iter sym_by_name sym_by_name_held cu_iter cu_at cu_containing die_top die_iter die_at
 die_at_info die_children die_siblings die_parent die_parent_chain die_ref lineprog_seq cfi_entries
 cfi_decoded_seq'''.split())
@@ -50,7 +50,7 @@ class Gen:
 
     def _applicable(self):
         k = ['sec_get', 'sec_by_name', 'sec_index', 'has_sec', 'num_sec', 'num_seg', 'has_dwarf', 'machine_arch',
-             'sec_iter']
+             'sec_iter', 'sec_get_typed']
         c = self.cat
         if self.sm:
             k += ['sec_data']
@@ -290,6 +290,8 @@ class Gen:
             dups = [n for n, k in sorted(Counter(x for x in c['sym_names'].get(m['i'], []) if x).items()) if k >= 2]
             for n in dups[:3]:
                 first.append(['sym_by_name', m['i'], n])
+        for m in self.sm[:40:3]:
+            first.append(['sec_get_typed', m['i'], ['SHT_NOSUCH']])
         # whole-table ops (used by the two-file runs: decode everything of one file, then of another)
         first.append(['sec_iter', None, None])
         if self.gm:
@@ -413,6 +415,13 @@ class Gen:
         if kind == 'sec_get':
             n = len(sm) or (c['nsec'] or 1)
             return [kind, r.choice([0, n - 1, r.randrange(n), r.randrange(n)])]
+        if kind == 'sec_get_typed':
+            if not sm:
+                return None
+            m = r.choice(sm)
+            good = m['type'] if isinstance(m['type'], str) else 'SHT_PROGBITS'
+            types = r.choice([[good], ['SHT_NOSUCH'], [good, 'SHT_NOBITS'], ['SHT_STRTAB', 'SHT_NOBITS'], ['SHT_SYMTAB', 'SHT_DYNSYM']])
+            return [kind, m['i'], types]
         if kind in ('sec_by_name', 'sec_index', 'has_sec'):
             return [kind, _names(r, [m['name'] for m in sm if m['name']])]
         if kind == 'sec_data':
